@@ -39,6 +39,15 @@ func dumpFields(p *load.Program) {
 			if !ok {
 				continue
 			}
+			if it, isI := tn.Type().Underlying().(*types.Interface); isI {
+				l := fmt.Sprintf("\t%q: {", pk.Types.Name()+"."+name)
+				for i := 0; i < it.NumMethods(); i++ {
+					m := it.Method(i)
+					l += fmt.Sprintf("%q, ", normalize.MemberKey(m.Name(), m.Type(), true))
+				}
+				lines = append(lines, l+"},")
+				continue
+			}
 			st, ok := tn.Type().Underlying().(*types.Struct)
 			if !ok {
 				continue
@@ -46,7 +55,7 @@ func dumpFields(p *load.Program) {
 			l := fmt.Sprintf("\t%q: {", pk.Types.Name()+"."+name)
 			for i := 0; i < st.NumFields(); i++ {
 				f := st.Field(i)
-				l += fmt.Sprintf("%q, ", f.Name()+":"+types.TypeString(f.Type(), func(p *types.Package) string { return p.Name() }))
+				l += fmt.Sprintf("%q, ", normalize.MemberKey(f.Name(), f.Type(), false))
 			}
 			lines = append(lines, l+"},")
 		}
